@@ -16,7 +16,8 @@ EXPLANATION = (
     "queue or the exit id; (E3) the id computed for a ring reaches both the epoll add and delete unchanged, only the first "
     "thread whose mask contains the queue is used, and the dispatcher hands (event id, event set, the thread's ring slice, "
     "thread id) to the backend."
-    " Also (E3): the mask used for a worker's ring slice is the worker's own element of queues_per_thread unmodified, shifted by the ring's index, and one worker object is created for every mask.")
+    " Also (E3): the mask used for a worker's ring slice is the worker's own element of queues_per_thread unmodified, shifted by the ring's index, and one worker object is created for every mask."
+    ' Round 4/5: (E3) the worker masks are searched in order from the first; (E5) the dispatcher returns Ok(true) only for the exit event; (E6) the ring objects shared with the workers are never replaced; (E7, E8) C11/T3, C11/T2.')
 NOT_DECIDED = ("The rank formula popcount(mask) - popcount(mask >> index) and the per-thread slice construction as numeric "
                "results (no canonical form; an expression-shape match would fire on equivalent rewrites, so it is not armed).")
 
@@ -136,6 +137,11 @@ def run_on(fb, chk, tag=""):
         again = [b2 for b2, _t, _c in sites(reg, name={"register_event", "unregister_event"}) if b2 in after]
         chk.check(not again, "E3", tag + "first-thread-only:" + c["name"], "the search stops at the first thread whose mask contains the queue",
                   "after %s the loop continues to further threads (a queue in two masks would be registered twice)" % c["name"], reg.loc(t["line"]))
+        recv = gm.sym.arg_terms(bb)[0]
+        odd = sorted({s_[1] for s_ in subterms(recv) if s_[0] == "call" and s_[1] in ("rev", "skip", "step_by", "cycle", "chain", "skip_while", "rposition", "last", "max_by_key", "nth_back", "next_back", "rfind")})
+        chk.check(not odd, "E3", tag + "thread-order:" + c["name"], "workers are searched in order, from the first",
+                  "the worker for a queue is searched with %s: with overlapping masks the kick is routed to another worker than the first "
+                  "one whose mask contains the queue" % odd, reg.loc(t["line"]))
         idt = gm.sym.arg_terms(bb)[3]
         chk.check("count_ones" in show(idt), "E3", tag + "id-source:" + c["name"], "id = rank of the queue in the thread's mask (popcount expression)",
                   "event id is %s" % show(idt)[:60], reg.loc(t["line"]))
